@@ -152,6 +152,15 @@ class _Prim(Sort):
     def __repr__(self):
         return self.name
 
+    def __call__(self, *a, **kw):
+        """CPython back end of the contract language: `Ballot(...)` in a clause / spec function builds the real object"""
+        if self.name == "Ballot":
+            from votekit.ballot import Ballot as _B
+            if "ranking" in kw and kw["ranking"] is not None:
+                kw["ranking"] = tuple(frozenset(x) for x in kw["ranking"])
+            return _B(*a, **kw)
+        raise TypeError(f"sort {self.name} is not constructible")
+
 
 Int = _Prim("Int", z3.IntSort())
 Real = _Prim("Real", z3.RealSort())      # Fraction
